@@ -308,9 +308,8 @@ def inline_simple_calls(repo, mod, expr, depth=3, exclude=()):
                     body[0].value is None:
                 return n
             ps = h.params()
-            if len(ps) != len(n.args) or not all(
-                    isinstance(a, (ast.Name, ast.Constant, ast.Attribute))
-                    for a in n.args):
+            if len(ps) != len(n.args) or any(
+                    isinstance(a, ast.Starred) for a in n.args):
                 return n
             env = dict(zip(ps, n.args))
 
